@@ -260,6 +260,24 @@ def run_case(case):
             viol.append({"sig": "C03/lower-bound-overshoots" + (f"/{tagstr}" if tagstr else ""), "msg": f"lower bound {lb} > exact minimum {kstar}; {desc}"})
         if case.get("planted") and not cons and not ign and got > case["planted"]:
             viol.append({"sig": "C03/more-than-planted", "msg": f"{got} > planted {case['planted']}; {desc}"})
+    if lbopt and "exc" not in res and isinstance(res.get("kw", {}).get("optimization_options"), dict):
+        # history: the caller re-uses the SAME options dict for a later, smaller instance (one path): still decomposed with the fewest paths
+        P = nx.DiGraph(); f1 = 3 if wt == "int" else 3.0
+        P.add_edge("p0", "p1", flow=f1); P.add_edge("p1", "p2", flow=f1)
+        old2 = (fp.MinFlowDecomp.subgraph_lowerbound_size, fp.MinFlowDecomp.subgraph_lowerbound_shift)
+        if small:
+            fp.MinFlowDecomp.subgraph_lowerbound_size, fp.MinFlowDecomp.subgraph_lowerbound_shift = 3, 2
+        try:
+            r2 = M.safe_call(fp.MinFlowDecomp, P, flow_attr="flow", weight_type=models.WT[wt], optimization_options=res["kw"]["optimization_options"], solver_options={"threads": 1, "time_limit": 60})
+            s2 = M.safe_call(r2[1].solve) if r2[0] == "ok" else r2
+        finally:
+            fp.MinFlowDecomp.subgraph_lowerbound_size, fp.MinFlowDecomp.subgraph_lowerbound_shift = old2
+        obs["c03.same_options_object_reused"] += 1
+        if s2[0] != "ok":
+            viol.append({"sig": f"C03/later-model-with-the-same-options-object/raises/{s2[1]}/{'/'.join(lbopt)}", "msg": f"{s2[2]}; after {desc}"})
+        elif not r2[1].is_solved() or len(r2[1].get_solution()["paths"]) != 1:
+            viol.append({"sig": f"C03/later-model-with-the-same-options-object/not-minimum/{'/'.join(lbopt)}",
+                         "msg": f"single path p0->p1->p2 with flow {f1}: solved={r2[1].is_solved()} {r2[1].get_solution() if r2[1].is_solved() else None}; options object now {res['kw']['optimization_options']}; after {desc}"})
     key = hashlib.sha1(desc.encode()).hexdigest()[:14]
     if case.get("mag"):
         # every disagreement on a magnitude-shifted instance is keyed by that magnitude (numerical range of the MILP layer)
